@@ -451,6 +451,7 @@ fn record_fail(cfg: &RunCfg, st: &mut RunStats, f: &Fail, hist: &[Step], levels:
 /// Explore every history of length <= cfg.depth (after the base) with `L` published levels.
 pub fn run<const L: usize>(cfg: &RunCfg) -> RunStats {
     let t0 = Instant::now();
+    crate::ops::TRADER_BASE.store(cfg.profile.trader_base, Ordering::Relaxed);
     let threads = util::n_threads();
     let sh = Shared {
         cfg,
@@ -598,6 +599,7 @@ pub fn run<const L: usize>(cfg: &RunCfg) -> RunStats {
     }
     total.complete = !sh.stop.load(Ordering::Relaxed);
     total.wall_s = t0.elapsed().as_secs_f64();
+    crate::ops::TRADER_BASE.store(100, Ordering::Relaxed);
     total
 }
 
